@@ -436,7 +436,7 @@ impl Service<Request<()>> for SniRecorder {
     }
 }
 
-pub const SNI_HOSTS: [Option<&str>; 14] = [
+pub const SNI_HOSTS: [Option<&str>; 19] = [
     None,
     Some("example.com"),
     Some("EXAMPLE.COM"),
@@ -451,8 +451,13 @@ pub const SNI_HOSTS: [Option<&str>; 14] = [
     Some("127.0.0.1:8443"),
     Some("[::1]"),
     Some("[::1]:8443"),
+    Some("[2001:db8::1]"),
+    Some("[2001:db8::2]"),
+    Some("[2001:DB8::1]:8443"),
+    Some("127.0.0.2"),
+    Some("[::2]:1"),
 ];
-pub const SNI_NAMES: [Option<&str>; 8] = [
+pub const SNI_NAMES: [Option<&str>; 12] = [
     None,
     Some("example.com"),
     Some("EXAMPLE.com"),
@@ -461,6 +466,10 @@ pub const SNI_NAMES: [Option<&str>; 8] = [
     Some("xample.com"),
     Some("sub.example.com"),
     Some("com"),
+    Some("127.0.0.1"),
+    Some("[::1]"),
+    Some("[2001:db8::1]"),
+    Some("[::2]"),
 ];
 
 #[derive(Clone, Debug, Hash)]
